@@ -366,6 +366,58 @@ static void worker (long start, void *user)
       orc_program_free (p);
     }
   }
+  /* LD: the order of the shape directives: every order of .flags 2d, .n 16, .m 3 (and of every two of them), placed
+   * before the declarations, and with .m / .flags after them; the API twin makes the same calls in the same order */
+  if (shard == 0 && start == 0) {
+    static const int perms[6][3] = { { 0, 1, 2 }, { 0, 2, 1 }, { 1, 0, 2 }, { 1, 2, 0 }, { 2, 0, 1 }, { 2, 1, 0 } };
+    static const char *dir[3] = { ".flags 2d", ".n 16", ".m 3" };
+    int pi, mask, late;
+    for (pi = 0; pi < 6; pi++) for (mask = 1; mask < 8; mask++) for (late = 0; late < 2; late++) {
+      char text[600], msg[300], *log = NULL;
+      size_t o = 0;
+      int k, n, errs = 0;
+      OrcProgram *p, **progs = NULL;
+      Fmt f;
+      VProg dummy;
+      if (late && !(mask & 5)) continue;
+      p = orc_program_new ();
+      snprintf (msg, sizeof (msg), "vLD_%d_%d_%d", pi, mask, late);
+      orc_program_set_name (p, msg);
+      o += snprintf (text + o, sizeof (text) - o, ".function %s\n", msg);
+      if (late) { o += snprintf (text + o, sizeof (text) - o, ".dest 2 d1\n.source 2 s1\n"); orc_program_add_destination (p, 2, "d1"); orc_program_add_source (p, 2, "s1"); }
+      for (k = 0; k < 3; k++) {
+        int d = perms[pi][k];
+        if (!(mask >> d & 1)) continue;
+        o += snprintf (text + o, sizeof (text) - o, "%s\n", dir[d]);
+        if (d == 0) orc_program_set_2d (p); else if (d == 1) orc_program_set_constant_n (p, 16); else orc_program_set_constant_m (p, 3);
+      }
+      if (!late) { o += snprintf (text + o, sizeof (text) - o, ".dest 2 d1\n.source 2 s1\n"); orc_program_add_destination (p, 2, "d1"); orc_program_add_source (p, 2, "s1"); }
+      o += snprintf (text + o, sizeof (text) - o, "addw d1, s1, 3\n");
+      orc_program_add_constant (p, 2, 3, "c1");
+      orc_program_append_str (p, "addw", "d1", "s1", "c1");
+      st_programs++; st_renderings++;
+      memset (&f, 0, sizeof (f)); memset (&dummy, 0, sizeof (dummy));
+      snprintf (dummy.name, sizeof (dummy.name), "vLD");
+      n = orc_parse_full (text, &progs, &log);
+      if (log) { const char *c; for (c = log; *c; c++) if (*c == '\n') errs++; if (*log && !errs) errs = 1; }
+      msg[0] = 0;
+      if (n != 1 || !progs || !progs[0]) snprintf (msg, sizeof (msg), "%d programs parsed", n);
+      else if (errs) snprintf (msg, sizeof (msg), "the parser reports %d error line(s): %.150s", errs, log);
+      else {
+        OrcProgram *q = progs[0];
+        if (q->is_2d != p->is_2d || q->constant_n != p->constant_n || q->constant_m != p->constant_m)
+          snprintf (msg, sizeof (msg), "parsed 2d/constant n/constant m = %d/%d/%d, the same calls through the API give %d/%d/%d", q->is_2d, q->constant_n, q->constant_m, p->is_2d, p->constant_n, p->constant_m);
+        else if (!(p->constant_m > 0 && !p->is_2d)) { char m2[200]; if (emulate_equal (p, q, m2, sizeof (m2))) snprintf (msg, sizeof (msg), "%s", m2); }
+      }
+      if (msg[0]) {
+        char cls[60];
+        snprintf (cls, sizeof (cls), "directive-order|%d%d%d/%d%s", perms[pi][0], perms[pi][1], perms[pi][2], mask, late ? "/after-declarations" : "");
+        viol (&dummy, cls, msg, text, &f, 0);
+      }
+      if (log) free (log);
+      orc_program_free (p);
+    }
+  }
   if (strstr (g_levels, "L1")) pgen_L1 (on_prog, &start, PG_INT | PG_FLOAT);
   if (strstr (g_levels, "L2")) pgen_L2 (on_prog, &start, PG_INT | PG_FLOAT);
   if (strstr (g_levels, "L3")) { pgen_L3 (on_prog, &start, PG_INT); pgen_L3 (on_prog, &start, PG_FLOAT); }
